@@ -597,6 +597,10 @@ class ExprMixin:
     def norm_index(self, idx_term, length):
         """python index normalisation with IndexError fork."""
         i = z3.If(idx_term < 0, idx_term + length, idx_term)
+        if self.pure_mode:
+            # inside a quantified comprehension: in-range becomes a universally quantified `safe` obligation
+            self.pure_sides.append(z3.And(i >= 0, i < length))
+            return i
         if self.branch(z3.Or(i < 0, i >= length)):
             raise PyRaise("IndexError")
         return i
